@@ -97,12 +97,13 @@ def brute(contract, world0, funsig, domain):
     return fails
 
 
-def warned(rr, funsig, kinds):
-    """did halmos log a warning for this test that names one of the limits?"""
+def warned(rr, funsig, kinds, strict=False):
+    """did halmos log a warning for this test that names one of the limits?  strict: the message must carry the full signature
+    (overloads share the name)"""
     msgs = [m for (lvl, m) in rr.logs if lvl in ("WARNING", "ERROR")]
     keys = {"loop": "loop unrolling bound", "width": "--width", "depth": "--depth", "stuck": "Encountered", "internal": "internal-error"}
     for m in msgs:
-        if funsig.split("(")[0] in m or funsig in m:
+        if (not strict and funsig.split("(")[0] in m) or funsig in m:
             if any(keys[k] in m for k in kinds):
                 return True
     return False
@@ -175,6 +176,21 @@ def check_same_signature(acc, config):
             acc.violation(f"silent-pass:second-contract:{name}:{cfgs}", f"[{cfgs}] contract {cname} (#{idx + 1} with test signature check_{name}({sig}) in this process): PASS without warning although n={fails[0]} fails", {"kind": "same", "config": config})
             return
     acc.state(("same-signature", cfgs))
+    # the same with two overloads of one test name in ONE contract
+    hdriver.reset_unique_filter()
+    body_addr = body  # the address overload runs the same code on its (address-typed) argument word
+    c = e2e.Contract("Over", {"setUp()": ["STOP"], f"check_{name}(uint256)": body, f"check_{name}(address)": body_addr})
+    rr = e2e.run_contract(c, options=dict(config, solver_timeout_assertion="10s"))
+    acc.count("contracts")
+    if rr.exception is None and len(rr.results) == 2:
+        world0 = e2e.ref_deploy(c)
+        for r in rr.results:
+            acc.count("tests")
+            fails = brute(c, world0, r.name, list(range(10)))
+            if fails and r.exitcode == 0 and not warned(rr, r.name, ("loop", "width", "depth", "stuck"), strict=True):
+                acc.violation(f"silent-pass:overload:{name}:{cfgs}", f"[{cfgs}] contract Over has check_{name}(uint256) and check_{name}(address): {r.name} is PASS without a warning naming it although n={fails[0]} fails", {"kind": "same", "config": config})
+                return
+        acc.state(("overloads", cfgs))
 
 
 # ---------------------------------------------------------------------------
@@ -184,6 +200,7 @@ def check_same_signature(acc, config):
 invgen.FUNCS["spin"] = ("spin(uint256)", loop_code(e2e.arg(0), "while") + ["PUSH0", "SSTORE", "STOP"], "nonpayable")
 invgen.FUNCS["spind"] = ("spind(uint256)", loop_code(e2e.arg(0), "dowhile") + ["PUSH0", "SSTORE", "STOP"], "nonpayable")
 invgen.FUNCS["spin3"] = ("spin3()", loop_code([("push", 3)], "while") + ["PUSH0", "SSTORE", "STOP"], "nonpayable")
+invgen.FUNCS["unsup"] = ("unsup()", [0x0C, "STOP"], "nonpayable")  # stops at an unsupported opcode in the outermost frame of the target call
 invgen.ARG_DOMAIN["spin(uint256)"] = list(range(0, 7))
 invgen.ARG_DOMAIN["spind(uint256)"] = list(range(0, 7))
 
@@ -200,8 +217,18 @@ def check_invariant(acc, fns, loop, depth, order=(1, 2, 3, 4, 5)):
     if rr.exception is not None or len(rr.results) != len(sigs):
         acc.violation(f"no-results:{name}", f"{name}: no results {rr.exception!r}", case)
         return
-    ref = invgen.reference_bfs(P, depth)
     msgs = [m for (lvl, m) in rr.logs if lvl in ("WARNING", "ERROR")]
+    if "unsup" in fns:
+        # the reference cannot run the unsupported opcode; the oracle here is only: the stopped target call is reported, or no test is a clean PASS
+        acc.count("tests", len(sigs))
+        reported = any("depth=" in m or "Unsupported" in m or "Encountered" in m for m in msgs)
+        acc.outcome(("inv-unsup", tuple(r.exitcode for r in rr.results), reported))
+        if depth >= 1 and not reported and all(r.exitcode == 0 for r in rr.results):
+            acc.violation(f"stuck-pass:{name}", f"{name}: a target call stops at an unsupported opcode (unsup()), nothing is reported and every invariant test is a clean PASS", case)
+            return
+        acc.state(name)
+        return
+    ref = invgen.reference_bfs(P, depth)
     loop_warned = any("loop unrolling bound" in m for m in msgs)
     by = rr.by_name()
     for k, sig in enumerate(sigs):
@@ -325,6 +352,9 @@ def shards(tier, seed):
         out.append({"kind": "regular", "names": ["unsupported", "while_sym_k1"], "config": cfg, "solver": "garbage"})
     for cfg in ({"loop": 2, "depth": 40}, {"loop": 2}, {"loop": 1, "width": 1}):
         out.append({"kind": "same", "config": cfg})
+    for fns in (["unsup"], ["unsup", "inc"]):
+        for depth in (1, 2):
+            out.append({"kind": "inv", "fns": fns, "loop": 2, "depth": depth})
     for fns in (["spin"], ["spind"], ["spin", "inc"], ["spin3"], ["spin3", "inc"]):
         for loop in (1, 2, 3, 6):
             for depth in ((1, 2) if tier == "quick" else (1, 2, 3)):
